@@ -966,17 +966,29 @@ class TorConfig:
         # way to put things into a config and get them out again
         # nicely...unless you just don't assign a protocol
         if self.protocol:
+            # remember what we're sending, so that something changed
+            # again before Tor answers stays pending
+            saved = [
+                (k, v, list(v) if isinstance(v, list) else v)
+                for k, v in self.unsaved.items()
+            ]
             d = self.protocol.set_conf(*args)
-            d.addCallback(self._save_completed)
+            d.addCallback(self._save_completed, saved)
             return d
 
         else:
             self._save_completed()
             return defer.succeed(self)
 
-    def _save_completed(self, *args):
+    def _save_completed(self, result=None, saved=None):
         '''internal callback'''
-        self.__dict__['unsaved'] = {}
+        if saved is None:
+            self.__dict__['unsaved'] = {}
+            return self
+        for key, value, snapshot in saved:
+            if key in self.unsaved and self.unsaved[key] is value and \
+               (not isinstance(value, list) or list(value) == snapshot):
+                del self.unsaved[key]
         return self
 
     def _find_real_name(self, name):
